@@ -891,8 +891,9 @@ func loadViaReads(img []byte, sizes []int) (data []byte, failed bool) {
 	return
 }
 
-// runCZ drives the chain snapshotter.Save / Load use: Compressor -> CountedWriter ->
-// SnapshotWriter with the case's pattern of Write calls (sizes of the individual writes
+// runCZ drives the real snapshotter.Save / snapshotter.Load (root package, through the
+// verif hook): Compressor -> CountedWriter -> SnapshotWriter with the state machine issuing
+// the case's pattern of Write calls (sizes of the individual writes
 // are the point: small, huge, around the 64 KB snappy frame, across the 2 MB block), then
 // SnapshotReader -> Decompressor chosen from the header. The bytes read back must be the
 // concatenation of the writes, byte for byte, and the caller's buffers untouched. Then
@@ -926,53 +927,95 @@ func runCZ(id string, comp int, ops []string, seed uint64, st *vh.Stats) string 
 	buf := append(make([]byte, 0, len(all)+64), all...)
 	buf = append(buf, 0xA5, 0x5A, 0xA5, 0x5A)
 	ref := append([]byte{}, buf...)
+	session := c14.GetEmptyLRUSession()
 	payload := ref[:len(all)]
 	ct := pb.CompressionType(comp)
+	// the REAL snapshotter: Save (Compressor -> CountedWriter -> SnapshotWriter, recorded
+	// size and checksum), finalized into its directory, then Load
 	fs := newFS()
-	w, err := c14.NewSnapshotWriter(fp, ct, fs)
+	root := func(uint64, uint64) string { return dir + "/ss" }
+	must(fs.MkdirAll(dir+"/ss", 0755))
+	sn := c14.NewSnapshotter(root, fs)
+	czIndex++
+	ss, err := sn.Save(czIndex, ct, session, func(w io.Writer) error {
+		off := 0
+		for _, n := range lens {
+			k, err := w.Write(buf[off : off+n])
+			if err != nil {
+				return err
+			}
+			if k != n {
+				st.Violation(id, fmt.Sprintf("roundtrip: compression %d: Write of %d bytes reported %d", comp, n, k))
+			}
+			if !bytes.Equal(buf, ref) {
+				st.Violation(id, fmt.Sprintf("writer-clobbers-caller: compression %d: Write(buf[%d:%d]) modified the caller's buffer at offset %d", comp, off, off+n, firstDiffOf(buf, ref)))
+				copy(buf, ref)
+			}
+			off += n
+		}
+		return nil
+	})
 	must(err)
-	cw := c14.NewCountedWriter(w)
-	sw := c14.NewCompressor(ct, cw)
-	off := 0
-	for _, n := range lens {
-		k, err := sw.Write(buf[off : off+n])
-		must(err)
-		if k != n {
-			st.Violation(id, fmt.Sprintf("roundtrip: compression %d: Write of %d bytes reported %d", comp, n, k))
+	f := getFile(fs, ss.Filepath)
+	if ss.FileSize != uint64(len(f)) {
+		st.Violation(id, fmt.Sprintf("size: snapshotter.Save recorded FileSize %d but the file has %d bytes", ss.FileSize, len(f)))
+	}
+	if sum, err := c14.GetV2PayloadChecksum(ss.Filepath, fs); err != nil || !bytes.Equal(sum, ss.Checksum) {
+		st.Violation(id, fmt.Sprintf("checksum: snapshotter.Save recorded %s, file gives %s (%v)", vh.Hex(ss.Checksum), vh.Hex(sum), err))
+	}
+	// load: the file image img is put in place of the saved file, then snapshotter.Load
+	// with a state machine that reads with the given sizes (nil: io.ReadAll)
+	load := func(img []byte, sizes []int) (sess []byte, data []byte, failed bool) {
+		putFile(fs, ss.Filepath, img)
+		p := vh.Catch(func() {
+			var err error
+			sess, err = sn.Load(ss, len(session), func(r io.Reader) error {
+				if sizes == nil {
+					d, err := io.ReadAll(r)
+					data = d
+					return err
+				}
+				for i := 0; ; i++ {
+					k := sizes[i%len(sizes)]
+					b := make([]byte, k)
+					m, err := r.Read(b)
+					data = append(data, b[:m]...)
+					if err == io.EOF {
+						return nil
+					}
+					if err != nil {
+						return err
+					}
+					if i > len(data)+1000 {
+						return io.ErrNoProgress
+					}
+				}
+			})
+			if err != nil {
+				failed = true
+			}
+		})
+		if p != "" {
+			failed = true
 		}
-		if !bytes.Equal(buf, ref) {
-			st.Violation(id, fmt.Sprintf("writer-clobbers-caller: compression %d: Write(buf[%d:%d]) modified the caller's buffer at offset %d", comp, off, off+n, firstDiffOf(buf, ref)))
-			copy(buf, ref)
-		}
-		off += n
+		return
 	}
-	must(sw.Close())
-	f := getFile(fs, fp)
-	if w.GetPayloadSize(cw.BytesWritten())+1024 != uint64(len(f)) {
-		st.Violation(id, fmt.Sprintf("size: recorded size %d+1024 but the file has %d bytes", w.GetPayloadSize(cw.BytesWritten()), len(f)))
-	}
-	if comp == 0 && cw.BytesWritten() != uint64(len(payload)) {
-		st.Violation(id, fmt.Sprintf("size: %d bytes written, counted %d", len(payload), cw.BytesWritten()))
-	}
-	if sum, err := c14.GetV2PayloadChecksum(fp, fs); cw.BytesWritten() > 0 && (err != nil || !bytes.Equal(sum, w.GetPayloadChecksum())) {
-		st.Violation(id, fmt.Sprintf("checksum: recorded %s, file gives %s (%v)", vh.Hex(w.GetPayloadChecksum()), vh.Hex(sum), err))
-	}
-	report := func(how string, d []byte, failed bool) {
-		if failed || !bytes.Equal(d, payload) {
+	report := func(how string, sess, d []byte, failed bool) {
+		if failed || !bytes.Equal(d, payload) || !bytes.Equal(sess, session) {
 			at := firstDiffOf(d, payload)
-			st.Violation(id, fmt.Sprintf("roundtrip: compression %d, writes of %v bytes, %s: read back %d bytes (failed=%v), written %d bytes, first difference at offset %d: got ..%s.. written ..%s..",
-				comp, lens, how, len(d), failed, len(payload), at, shortHex(d, at), shortHex(payload, at)))
+			st.Violation(id, fmt.Sprintf("roundtrip: compression %d, session table then writes of %v bytes, snapshotter.Load with %s: sessions %s (saved %s), read back %d bytes (failed=%v), written %d bytes, first difference at offset %d: got ..%s.. written ..%s..",
+				comp, lens, how, vh.Hex(sess), vh.Hex(session), len(d), failed, len(payload), at, shortHex(d, at), shortHex(payload, at)))
 		}
 	}
-	d, failed := loadVia(f)
-	report("io.ReadAll", d, failed)
+	sess, d, failed := load(f, nil)
+	report("io.ReadAll", sess, d, failed)
 	r := vh.NewRand(seed + uint64(len(all)))
 	pat := []int{1 + r.Intn(40), 16, 1 + r.Intn(70000), 0, 65536, 1 + r.Intn(5)}
 	if len(all) > 1<<20 {
 		pat = []int{16, 1 + r.Intn(300000), 65537, 1 << 20}
 	}
-	d, failed = loadViaReads(f, pat)
-	report(fmt.Sprintf("reads of %v", pat), d, failed)
+	sess, d, failed = load(f, pat)
+	report(fmt.Sprintf("reads of %v", pat), sess, d, failed)
 	if v := verdict(f, []int{1024 + r.Intn(100), 1 + r.Intn(len(f)), 1 + r.Intn(len(f))}); v != "A" {
 		st.Violation(id, fmt.Sprintf("validator: writer output refused (%s), compression %d, %d bytes", v, comp, len(f)))
 	}
@@ -998,23 +1041,29 @@ func runCZ(id string, comp int, ops []string, seed uint64, st *vh.Stats) string 
 	}
 	detected := 0
 	for _, b := range bits {
-		g := flip(f, b)
-		d, failed := loadVia(g)
+		sess, d, failed := load(flip(f, b), nil)
 		if failed {
 			detected++
 			continue
 		}
-		if !bytes.Equal(d, payload) {
+		if !bytes.Equal(d, payload) || !bytes.Equal(sess, session) {
 			at := firstDiffOf(d, payload)
-			st.Violation(id, fmt.Sprintf("corruption: compression %d: bit %d flipped, load succeeded with different bytes (first difference at offset %d: ..%s.. instead of ..%s..)", comp, b, at, shortHex(d, at), shortHex(payload, at)))
+			tag := ""
+			if b < 64 {
+				tag = "header-length-escape: "
+			}
+			st.Violation(id, fmt.Sprintf("corruption: %scompression %d: bit %d flipped, snapshotter.Load succeeded with different bytes (sessions %s, first difference at offset %d: ..%s.. instead of ..%s..)", tag, comp, b, vh.Hex(sess), at, shortHex(d, at), shortHex(payload, at)))
 			break
 		}
 	}
+	must(fs.RemoveAll(dir + "/ss"))
 	st.Count(fmt.Sprintf("cz-comp%d", comp))
 	st.Distribution["cz-flips"] += len(bits)
 	st.Distribution["cz-flips-detected"] += detected
 	return fmt.Sprintf("%s CZ", id)
 }
+
+var czIndex uint64
 
 func sizeClass(n int) string {
 	switch {
